@@ -597,6 +597,17 @@ mut('C14-greedy-pick-never-recorded', 'C14', PA, "                reverse_permut
 mut('C13-stable-solve-loop-over-last-extent', 'C13', 'pb_bss/math/solve.py', "        for i in range(working_shape_A[0]):", "        for i in range(working_shape_A[-1]):", expect='extent', props=['C13', 'C11'])
 mut('C19-noise-power-over-sensors', 'C19', SX, "    N = get_variance_for_zero_mean_signal(noise, axis=-1)  # Noise power", "    N = get_variance_for_zero_mean_signal(noise, axis=-2)  # Noise power", expect='power-axis', props=['C19'])
 mut('C15-euclidean-summed-over-classes', 'C15', PA, "            np.abs(mask[:, None, ...] - reference_mask[None, ...]) ** 2,\n            axis=-1\n        )).T", "            np.abs(mask[:, None, ...] - reference_mask[None, ...]) ** 2,\n            axis=-2\n        )).T", expect='layout', props=['C15'])
+# ---- seventh pass (round-11 rules): neutral twins of the enumerated rules
+neu('N19-psd-observation-by-two-moves', ALLP, [('pb_bss/extraction/beamformer.py',
+    "    obs_transpose = [\n        i\n        for i in range(-observation.ndim, 0) if i not in [sensor_dim, time_dim]\n    ] + [sensor_dim, time_dim]\n    observation = observation.transpose(obs_transpose)\n",
+    "    observation = np.moveaxis(observation, time_dim, -1)\n    if time_dim < sensor_dim < 0:\n        sensor_dim -= 1\n    observation = np.moveaxis(observation, sensor_dim, -2)\n", False)])
+mut('C10-psd-sensor-axis-stale-after-move', 'C10', 'pb_bss/extraction/beamformer.py',
+    "    obs_transpose = [\n        i\n        for i in range(-observation.ndim, 0) if i not in [sensor_dim, time_dim]\n    ] + [sensor_dim, time_dim]\n    observation = observation.transpose(obs_transpose)\n",
+    "    observation = np.moveaxis(observation, time_dim, -1)\n    if time_dim < sensor_dim < -1:\n        sensor_dim -= 1\n    observation = np.moveaxis(observation, sensor_dim, -2)\n", expect='layout', props=['C10'])
+mut('C16-dhtv-passes-start-at-one', 'C16', PA, "            for iteration in range(iterations):", "            for iteration in range(1, iterations):", expect='passes', props=['C16'])
+neu('N19-dhtv-passes-counted-from-one', ALLP, [(PA, "            for iteration in range(iterations):", "            for iteration in range(1, iterations + 1):", False)])
+mut('C09-cacg-eig-on-request', 'C09', D + 'complex_angular_central_gaussian.py', "            eigenvals, eigenvecs = np.linalg.eigh(covariance)\n", "            eigenvals, eigenvecs = np.linalg.eig(covariance) if eigenvalue_floor else np.linalg.eigh(covariance)\n", expect='eig-on-regular-path', props=['C09'])
+mut('C13-reference-channel-floor-default-zero', 'C13', 'pb_bss/extraction/beamformer.py', "        noise_psd_matrix,\n        eps=None,\n):\n    if w_mat.ndim != 3:", "        noise_psd_matrix,\n        eps=0.,\n):\n    if w_mat.ndim != 3:", expect='default-floor', props=['C11', 'C13'])
 # ---- whole refactorings written by independent sub-agents (14-20 behaviour-preserving edits each, verified bit-identical on
 #      600-900 inputs per patch): every check must stay silent on each of them
 for r, what in (('R1', 'mixture_model_utils / cacgmm / cACG'), ('R2', 'cwmm / cbmm / Watson / Bingham / distribution.utils'), ('R3', 'gmm / gaussian / vMF / gcacgmm / vmfcacgmm'),
